@@ -26,12 +26,17 @@ class C38(Spec):
                   "real wallet (leveldb store, real queue) in which ProcWalletSetPasswd is HELD at store accesses inside the call "
                   "while readers / Lock / blocked callers run, the real unlock timer, a battery of guarded handlers through the "
                   "wallet's message loop; every answer compared with the compiled model; plus polling-observer and Lock-race "
-                  "stress runs with the predicate evaluated on the implementation.")
+                  "stress runs and concurrent generated request mixes (every 'unlocked' observation / returned key must be "
+                  "explained in real time by a successful unlock not followed by a completed lock) with the predicate "
+                  "evaluated on the implementation.")
     level_note = ("A wallet with a saved seed is modelled. sync.Mutex, sync/atomic and time.AfterFunc are taken as specified by Go. "
                   "The scripted tie can hold ProcWalletSetPasswd only at store accesses (inside VerifyPasswordHash and before the "
                   "batch write), so load/CAS are always adjacent there; the lost-lock interleaving is reproduced by a real race "
                   "(its KNOWN-FINDING line appears only in runs where the race is won). GetPrivKeyByAddr (plugin interface, not a "
-                  "request) does not look at the flag by design and is outside the property.")
+                  "request) does not look at the flag by design and is outside the property. The harness tells the driver which "
+                  "ProcWalletSetPasswd variant to model (default `current`; VERIF_C38_VARIANT=verifyfirst|repaired were "
+                  "run against the two candidate repairs in a scratch copy of /repo: no diff; `repaired` removes all three "
+                  "findings, `verifyfirst` leaves the second one and the lost lock for a right old password).")
     assumptions = ("the wallet has a saved seed (otherwise Lock/Unlock never touch the flag)",
                    "Go's sync.Mutex / sync/atomic / time.AfterFunc behave as specified",
                    "wallet plugins (policies) do not write the flag themselves")
